@@ -311,6 +311,14 @@ class PusTm(AbstractPusTm):
         )
         if expected_packet_len > len(data):
             raise BytesTooShortError(expected_packet_len, len(data))
+        min_packet_len = (
+            SPACE_PACKET_HEADER_SIZE + PusTmSecondaryHeader.MIN_LEN + timestamp_len + 2
+        )
+        if expected_packet_len < min_packet_len:
+            raise ValueError(
+                f"packet length {expected_packet_len} too small for secondary header, "
+                f"timestamp and CRC16"
+            )
         pus_tm.pus_tm_sec_header = PusTmSecondaryHeader.unpack(
             data=data[SPACE_PACKET_HEADER_SIZE:],
             timestamp_len=timestamp_len,
